@@ -287,6 +287,7 @@ func (c *Ctx) finish(verifDir string, seed int, wall float64, explanation string
 		"checker_cmd":         fmt.Sprintf("/verif/check %s %s", c.Prop, c.Tier),
 		"trusted_base":        trusted,
 		"notes":               c.Notes,
+		"inlined_helpers":     append([]string{}, c.w.Inlined...),
 	}
 	ev := evidence{PropertyID: c.Prop, Tier: c.Tier, Seed: seed, Level: "other", Coverage: cov,
 		Assumptions: append([]string{}, c.Assumes...), WallS: wall, Violations: nViol + nUnd}
@@ -295,6 +296,9 @@ func (c *Ctx) finish(verifDir string, seed int, wall float64, explanation string
 	if err := os.WriteFile(filepath.Join(evDir, c.Prop+".json"), b, 0o644); err != nil {
 		fmt.Printf("VIOLATION property=%s replay=%s\n  what cannot write evidence: %v\n", c.Prop, "-", err)
 		return 1
+	}
+	if len(c.w.Inlined) > 0 {
+		fmt.Printf("%s note: %d helper(s) that are not part of the pinned tree and have a single call site were analysed inlined into their callers: %s\n", c.Prop, len(c.w.Inlined), strings.Join(c.w.Inlined, "; "))
 	}
 	fmt.Printf("%s %s: %d obligations (%d discharged, %d assumed, %d known findings, %d violated, %d undecided) over %d functions, %d rules, %.1fs\n",
 		c.Prop, c.Tier, total, nOK, nAss, nKnown, nViol, nUnd, len(fns), len(c.Instances), wall)
